@@ -132,6 +132,30 @@ class ClassV:
                     return c, n
         return None, None
 
+    def slots(self):
+        """the attribute names an instance can hold when EVERY class of the chain declares __slots__ (then there is no
+        per-instance __dict__); None when some class does not, i.e. any attribute can be stored"""
+        allowed = set()
+        for c in self.mro():
+            decl = None
+            for n in c.node.body:
+                if isinstance(n, ast.Assign) and any(isinstance(t, ast.Name) and t.id == '__slots__' for t in n.targets):
+                    decl = n.value
+            if decl is None:
+                return None
+            if isinstance(decl, ast.Constant) and isinstance(decl.value, str):
+                names = [decl.value]
+            elif isinstance(decl, (ast.Tuple, ast.List, ast.Set)) and all(isinstance(e, ast.Constant) and isinstance(e.value, str) for e in decl.elts):
+                names = [e.value for e in decl.elts]
+            else:
+                return None
+            if '__dict__' in names:
+                return None
+            allowed |= set(names)
+        if any(not (getattr(b, 'name', None) == 'object' or b is object) for b in self.ext_bases()):
+            return None
+        return allowed
+
     def class_attr_node(self, name):
         for c in self.mro():
             for n in c.node.body:
@@ -1209,8 +1233,18 @@ class Interp:
             exc = self.eval(st.exc, sc) if st.exc is not None else None
             kind = exc.cls.name if isinstance(exc, Rec) else (unparse(st.exc) if st.exc is not None else 're-raise')
             raise InterpAbort(kind, st, rel, 'raise statement reached')
-        elif isinstance(st, (ast.Import, ast.ImportFrom)):
-            raise InterpAbort('unmodelled-statement', st, rel, 'import inside a function')
+        elif isinstance(st, ast.Import):
+            # `import re` inside a function binds the module locally, exactly as at module level
+            for a in st.names:
+                name, mrel = self.resolve_module(a.name)
+                if a.asname:
+                    sc.vars[a.asname] = ModuleV(name, mrel)
+                else:
+                    top = a.name.split('.')[0]
+                    _, trel = self.resolve_module(top)
+                    sc.vars[top] = ModuleV(top, trel)
+        elif isinstance(st, ast.ImportFrom):
+            raise InterpAbort('unmodelled-statement', st, rel, 'from-import inside a function')
         else:
             raise InterpAbort('unmodelled-statement', st, rel, type(st).__name__)
 
@@ -1226,6 +1260,9 @@ class Interp:
         elif isinstance(t, ast.Attribute):
             base = self.eval(t.value, sc)
             if isinstance(base, Rec):
+                allowed = base.cls.slots() if isinstance(base.cls, ClassV) else None
+                if allowed is not None and t.attr not in allowed:
+                    raise InterpAbort('AttributeError', t, sc.root().rel, f"'{base.cls.name}' object has no attribute '{t.attr}' (every class of its chain declares __slots__, none lists it)")
                 base.attrs[t.attr] = v
             else:
                 raise InterpAbort('unmodelled-statement', t, sc.root().rel, f'attribute store on {type(base).__name__}')
